@@ -27,6 +27,22 @@ CLAIMED = {
    technique="TLC model checking of GenericSpec (complete literal pool) + exhaustive transition replay into GenericSpecifier with membership of every candidate through `in`",
    text="TLA+ spec GenericSpec transcribes the sorted-operator case table of GenericSpecifier.__and__/__or__/__invert__ over literals that are letter sequences (so equal/substring/superstring/disjoint/empty relations are computed); TLC checks Exact (answer denotes the intersection/union/complement wherever the table answers) over all 3600 ordered pairs; every dumped transition is executed on the real class under three fragment renderings and the membership of all 31 candidates through `in` (also on returned Empty/Any specifiers) is compared with the specification's exact set.",
    note="Pool: literals of length<=3 over two letters, candidates length<=4; complete within the pool. A real NotImplementedError where the table answers is allowed by the statement and only counted as drift."),
+ "C09": dict(engine="platform", category="model_checking", design_ref="5/C09",
+   technique="TLC model checking of PlatformTags over the complete configuration grid (transcribed generation loops = declarative PEP 600/656/macOS sets in priority order) + replay of every configuration into Platform.compatible_tags / EnvSpec.compatibility + cross-check of the meaning layer against packaging.tags",
+   text="TLA+ spec PlatformOps/PlatformTags has a declarative tag set with a priority order per configuration (meaning) and a transcription of Platform.compatible_tags, Arch floors/formats and EnvSpec._evaluate_platform (algorithm); TLC checks TagsExact and ScoreOrder on all 466 configurations of the stated grid; each configuration's list and per-tag scores (repeated calls on one EnvSpec) are compared with the real code, and the declarative lists with packaging.tags (glibc/musl probes stubbed; disagreement = spec error, exit 2).",
+   note="Complete for the stated grid. fat* formats filtered. One known finding: macOS 10.x on arm64 (known_findings.json)."),
+ "C08": dict(engine="wheel", category="model_checking", design_ref="5/C08",
+   technique="TLC model checking of WheelCompat/Decide (transcribed _evaluate_python on digit sequences + interval algebra vs the declarative 'some admitted interpreter can load it') + replay of every (requires_python, setting, tag pair) into EnvSpec.compatibility",
+   text="TLA+ spec WheelOps/WheelCompat: Python versions are points of the interval algebra (series boundaries for majors 2-3, minors 0-21, 4.0 and inner points); requires_python ranges over every union of the cells cut by selected bounds (holes, bounds inside a series); the tag universe has py/cp/pp tags with none/abi3/own/m/t/foreign/other-minor/digit-prefix ABIs; TLC checks DecisionExact (algorithm = meaning incl. score) for every state; every state x tag pair is executed on the real EnvSpec and compared with the meaning layer; compressed multi-tag wheels are checked to be the max over combinations.",
+   note="Quick: 128 requires_python x 4 settings x 360 tag pairs; thorough adds all minors 0-20 and a 5-bound family. abi3 on non-cp tags / free-threaded targets is outside the statement (don't care)."),
+ "C16": dict(engine="wheel", category="model_checking", design_ref="5/C16",
+   technique="TLC model checking of WheelCompat/Widen, EnvCompare/Cmp and PlatformTags/Pairs + replay of every pair into EnvSpec.compatibility / compare / Platform.compatible_tags",
+   text="Three exhaustive pair spaces: (rp, rp2) of the requires_python family with Den(rp) subset of Den(rp2) x settings x tag universe (WideningKeepsWheels); all ordered pairs of an EnvSpec grid (requires_python x platform-or-none x implementation/gil-or-none) with the transcribed compare() (CompareLaws: reflexive, INCOMPATIBLE symmetric, never HIGHER both ways, LE/HIGHER imply tag-set nesting); all ordered pairs of the platform grid (Monotone, CompareConsistent).  Every pair is replayed on the real objects.",
+   note="Quick uses sub-grids (27 889 platform pairs, 104 976 EnvSpec pairs); thorough the full platform grid."),
+ "C18": dict(engine="wheel", category="exploration", design_ref="5/C18",
+   technique="TLA+ specs WheelName / PlatformTags(NamesRoundTrip) as structural generator + reference, model-checked by TLC; every generated name rendered and compared with packaging.utils.parse_wheel_filename / Platform.parse",
+   text="WheelName.tla models file names as token sequences (words, DASH, DOT) and checks that 'last three of 5 or 6 dash-separated fields, split on dots' recovers the three tag sets and that malformed names are rejected; every modelled name is rendered with concrete tags and checked on parse_wheel_tags / wheel_compatibility against packaging; Platform.parse(str(p)) == p for the whole platform grid, multi-digit versions, architectures with underscores, aliases and choices().",
+   note="Character-level parsing (regular expressions) is only exercised, not modelled: level exploration."),
 }
 
 def cmd(pid, tier): return f"./check {pid} --tier {tier}"
@@ -43,6 +59,8 @@ na = [{"property_id": p, "reason": NA_REASON.get(p, "engine not built yet in thi
 engines = [
  {"name": "interval", "path": "harness/check_interval.py + specs/IntervalOps.tla, IntervalAlgebra.tla, SpecSessionTrace.tla", "serves_properties": ["C01", "C05", "C13", "C14"],
   "kind_free_text": "TLC model checking + spec->code transition replay + code->spec trace validation"},
+ {"name": "platform", "path": "harness/check_platform.py + specs/PlatformOps.tla, PlatformTags.tla", "serves_properties": ["C09"], "kind_free_text": "TLC model checking of the full grid + replay + packaging cross-check"},
+ {"name": "wheel", "path": "harness/check_wheel.py + specs/WheelOps.tla, WheelCompat.tla, EnvCompare.tla, WheelName.tla", "serves_properties": ["C08", "C16", "C18"], "kind_free_text": "TLC model checking + exhaustive state replay"},
  {"name": "generic", "path": "harness/check_generic.py + specs/GenericSpec.tla", "serves_properties": ["C19"], "kind_free_text": "TLC model checking + exhaustive transition replay"},
 ]
 m = {"version": 1, "setup_cmd": "./setup.sh",
